@@ -790,6 +790,17 @@ func c04ICMPReplay(r *vmc.Result, cs c04ICMPCase) {
 		}
 		return
 	}
+	if cs.Kind == "tcp-exit" {
+		w, err := c04TCPExitWorld()
+		if err != nil {
+			r.HarnessError("C04 tcp exit schedule build: %v", err)
+			return
+		}
+		defer w.nt.close()
+		defer w.tgt.close()
+		c04TCPExitExec(r, w, cs, vmc.NewReplayChooser(cs.Choices))
+		return
+	}
 	if cs.Kind == "udp-exit" {
 		w, err := c04UDPExitWorld()
 		if err != nil {
@@ -853,4 +864,5 @@ func c04ICMPAll(r *vmc.Result) {
 	c04ICMPSched(r)
 	c04ExitSched(r)
 	c04UDPExitSched(r)
+	c04TCPExitSched(r)
 }
